@@ -282,10 +282,10 @@ def add_rtt(u):
             'final(self).last_rtt_measurement_ms == old(self).last_rtt_measurement_ms', 'final(self).kalman_rtt == old(self).kalman_rtt']),
         u.fn(T, 'handle_keepalive_response', impl='RttTracker', sub='reconn', ret='r',
              ensures=[
-                 C('C14.reconn.keepalive_response.sample_only_while_probe_outstanding', 'r is Some ==> old(self).waiting_for_keepalive_response'),
-                 C('C14.reconn.keepalive_response.sample_only_from_valid_echo',
+                 C('C09+C14.reconn.keepalive_response.sample_only_while_probe_outstanding', 'r is Some ==> old(self).waiting_for_keepalive_response'),
+                 C('C09+C14.reconn.keepalive_response.sample_only_from_valid_echo',
                    'r is Some ==> spec_keepalive_ts(data@) is Some && r.unwrap() == sub_sat(now_ms, spec_keepalive_ts(data@).unwrap())'),
-                 C('C14.reconn.keepalive_response.rtt_in_0_10s', 'r is Some ==> 0 < r.unwrap() <= 10000'),
+                 C('C09+C14.reconn.keepalive_response.rtt_in_0_10s', 'r is Some ==> 0 < r.unwrap() <= 10000'),
                  C('C14.reconn.keepalive_response.ignored_when_not_waiting', '!old(self).waiting_for_keepalive_response ==> *final(self) == *old(self) && r is None'),
                  C('C14.reconn.keepalive_response.probe_consumed', '!final(self).waiting_for_keepalive_response'),
              ]),
@@ -443,7 +443,7 @@ def add_connection(u):
     F(u.fn(CONN, 'clear_pre_registration_state', impl='SrtlaConnection', sub='acct',
            post_rewrite=[('CachedQuality::default()', 'cached_quality_default()', 1)],
            ensures=[
-               C('C02+C08.acct.clear_pre_registration_state.nothing_in_flight', 'final(self).in_flight_packets == 0 && final(self).packet_log@.len() == 0 && final(self).highest_acked_seq == i32::MIN'),
+               C('C02+C05+C08.acct.clear_pre_registration_state.nothing_in_flight', 'final(self).in_flight_packets == 0 && final(self).packet_log@.len() == 0 && final(self).highest_acked_seq == i32::MIN'),
                C('C08.acct.clear_pre_registration_state.enters_warming', 'final(self).phase == (LinkPhase::Warming { rtt_probes: 0, entered_ms: now_ms })'),
                C('C06+C08.acct.clear_pre_registration_state.window_kept', 'final(self).window == old(self).window'),
                C('C01.acct.clear_pre_registration_state.queue_dropped', 'final(self).batch_sender.queue.len() == 0 && final(self).batch_sender.wf()'),
